@@ -305,7 +305,7 @@ func applyMut(typ string, p val.V, m Mut) (val.V, string, bool) {
 	return p, "", false
 }
 
-var envMuts = []string{"", "one-entry", "three-entries", "two-tags", "h+aux-short+payload", "h+payload+aux-long", "h+aux-short-map+payload", "h+both-type-tags", "h+other-version+payload", "h+payload+payload-copy-long", "header-only", "unknown-tag", "other-version", "other-type-tag", "no-prefix-tag", "header-int", "sig-not-bytes"}
+var envMuts = []string{"", "tag-extended-digit", "tag-extended-plus", "tag-extended-slash", "tag-extended-space", "tag-truncated", "one-entry", "three-entries", "two-tags", "h+aux-short+payload", "h+payload+aux-long", "h+aux-short-map+payload", "h+both-type-tags", "h+other-version+payload", "h+payload+payload-copy-long", "header-only", "unknown-tag", "other-version", "other-type-tag", "no-prefix-tag", "header-int", "sig-not-bytes"}
 
 // buildEnvelope signs the payload correctly and applies the envelope-level mutation.
 func buildEnvelope(typ string, payload val.V, envMut string) (ipld.Node, string, error) {
@@ -361,6 +361,21 @@ func buildEnvelope(typ string, payload val.V, envMut string) (ipld.Node, string,
 		verdict = "reject"
 	case "unknown-tag":
 		entries[1].K = "ucan/rcpt@1.0.0-rc.1"
+		verdict = "reject"
+	case "tag-extended-digit": // ucan/dlg@1.0.0-rc.10: the right tag is a proper PREFIX of it
+		entries[1].K = tag + "0"
+		verdict = "reject"
+	case "tag-extended-plus":
+		entries[1].K = tag + "+build.7"
+		verdict = "reject"
+	case "tag-extended-slash":
+		entries[1].K = tag + "/x"
+		verdict = "reject"
+	case "tag-extended-space":
+		entries[1].K = tag + " "
+		verdict = "reject"
+	case "tag-truncated":
+		entries[1].K = tag[:len(tag)-1]
 		verdict = "reject"
 	case "other-version":
 		entries[1].K = strings.Replace(tag, "rc.1", "rc.2", 1)
